@@ -30,8 +30,9 @@ def part_a(ctx):
     b, viols, hists, stats, st = wcorepipe.model_check(ctx, "C05", "cgen", "split", ["NoPoisonRead"], {"poison"}, want_export=True, compile_c=variants)
     # only programs with a coroutine matter
     total_calls, mism = 0, []
+    dead = set()      # (program, function) on which a compiled variant hung or crashed (confirmed): not driven again
     for v, exe in b.exes.items():
-        bad, calls = wcorepipe.replay(ctx, b, hists, exe)
+        bad, calls = wcorepipe.replay(ctx, b, hists, exe, dead=dead)
         total_calls += calls
         for m in bad:
             m["compiler"] = " ".join(v)
